@@ -290,6 +290,11 @@ m('C18', 'io/file.py', "                    read_data(file)\n", "               
 m('C20', 'container/parquet.py', "                        _load_file(filename)\n", "                        _load_file(open_obj)\n", 'fire', ['PU-2'], 'mutation round 5: the file-object arm opens the reader on something else')
 m('C13', 'operators/scan.py', "                    observer.on_next(i)\n                    i.store.del_key(state, i.key)\n                elif type(i) is rs.state.ProbeStateTopology:", "                    observer.on_next(i)\n                    i.store.del_key(None, i.key)\n                elif type(i) is rs.state.ProbeStateTopology:", 'fire', ['ST-8'], 'mutation round 5: a store call of the error arm names no state')
 m('C08', 'operators/tee_map.py', "                observer.on_error,\n                functools.partial(done, i),", "                None,\n                functools.partial(done, i),", 'fire', ['SUB-3'], 'mutation round 5: a None handler is no handler')
+# ---------------------------------------------------------------- round m (copy-paste slips)
+m('C01', 'operators/flat_map.py', "        return rs.MuxObservable(on_subscribe)", "        return rx.create(on_subscribe)", 'fire', ['MX-9'], 'seed C01m in short')
+m('C15', 'framing/length_prefix.py', "                nonlocal acc\n                offset = 0\n", "                nonlocal acc\n                if len(i) > 2**(prefix_size*8):\n                    observer.on_error(ValueError('too big'))\n                offset = 0\n", 'fire', ['FR-2'], 'seed C15m in short: the guard of frame copied into unframe')
+m('C19', 'io/file.py', "                    f = open_obj(file, mode, encoding=encoding)", "                    f = open(file, mode, encoding=encoding)", 'fire', ['FH-1'], "seed C19m: the caller's opener ignored by the writer")
+m('C10', 'operators/scan.py', "                if terminator:\n                    value = state\n                    if has_state is False:", "                if terminator:\n                    value = state\n                    if value is rs.state.markers.STATE_NOTSET:", 'fire', ['AG-3b'], 'seed C10m: the marker of the mux twin looked for in a variable that starts as None')
 # ---------------------------------------------------------------- C20
 m('C20', 'container/parquet.py', "pa.array(columns_data[i], type=columns_type[i])", "pa.array(columns_data[i], type=columns_type[i], from_pandas=True)", 'fire', ['PU-2'], 'seed C20g in short: NaN stored as null')
 m('C20', 'container/parquet.py', "pa.array(columns_data[i], type=columns_type[i])", "pa.array(columns_data[i])", 'silent', [], 'type left to inference: from_arrays(schema=...) casts (checked against pyarrow)')
